@@ -13,7 +13,7 @@
 (*     the parse-end/error-position clauses of C10,                            *)
 (*   - emits the case with the predicted outcomes for replay on the library.  *)
 (***************************************************************************)
-EXTENDS ParseMachine, TLC, Json
+EXTENDS ParseMachine, TLC, Json, BigCases
 
 CONSTANTS U,          \* name of the universe
           MaxUnits,   \* how many units a case may have
@@ -46,7 +46,8 @@ LongStarts == {Ones(61), <<45>> \o Ones(61), Ones(30) \o <<46>> \o Ones(30), One
 NestUnits == Byte({91, 93, 44, 125, 49}) \cup {<<123, 125>>, <<91, 93>>, <<123, 34, 97, 34, 58>>}
 Units == CASE U = "nest" -> NestUnits [] U = "tok" -> TokUnits [] U = "str" -> StrUnits [] U = "num" -> NumUnits [] U = "lit" -> LitUnits
            [] U = "ws" -> WsUnits [] U = "long" -> Byte({49, 46, 101, 93}) [] OTHER -> {}
-Starts == CASE U = "str" -> {<<34>>, <<123, 34>>} [] U = "long" -> LongStarts [] OTHER -> {<<>>}
+\* "big": long literals, wide containers, deep nesting; "allbytes": every byte value in every syntactic position (no growth: MaxUnits = 0)
+Starts == CASE U = "str" -> {<<34>>, <<123, 34>>} [] U = "long" -> LongStarts [] U = "big" -> BigParseTexts [] U = "allbytes" -> AllByteTexts [] OTHER -> {<<>>}
 
 \* ---- L1 classification ---------------------------------------------------------------------------------
 Front(b) == SubSeq(b, 1, Len(b) - 1)
